@@ -65,6 +65,8 @@ func main() {
 	sampleEvery := fs.Int("sample-every", 0, "attach the case of every n-th run")
 	noShrink := fs.Bool("no-shrink", false, "do not minimise")
 	fs.Parse(os.Args[2:])
+	kernel.VerifSeed = *vseed
+	kernel.ReferenceOnly = os.Getenv("VERIF_REFERENCE_ONLY") == "1"
 
 	switch cmd {
 	case "serve":
@@ -73,7 +75,7 @@ func main() {
 	case "gen":
 		eng := mustEngine(*engName)
 		seed := kernel.RunSeed(*vseed, eng.Property(), *run)
-		c, err := eng.Generate(seed, *tier)
+		c, err := eng.Generate(seed, *tier, *run)
 		if err != nil {
 			fatal(err)
 		}
@@ -131,7 +133,7 @@ func serve(eng kernel.Engine, vseed uint64, tier, replayDir string, sampleEvery 
 func oneRun(eng kernel.Engine, vseed uint64, tier, replayDir string, r, sampleEvery int, noShrink bool) {
 	seed := kernel.RunSeed(vseed, eng.Property(), r)
 	emit(line{T: "start", Run: r, Seed: seed}) // write-ahead: the orchestrator knows what was in flight
-	c, err := eng.Generate(seed, tier)
+	c, err := eng.Generate(seed, tier, r)
 	if err != nil {
 		emit(line{T: "error", Run: r, Err: "generate: " + err.Error()})
 		return
